@@ -174,12 +174,6 @@ theorem escapes_index_counterexample : ¬ FilterContained .index_ undefined [int
   rw [filterContained_iff]; decide
 theorem escapes_sum_counterexample : ¬ FilterContained .sum_ list_infs [] := by
   rw [filterContained_iff]; decide
-theorem escapes_gettext_counterexample : ¬ FilterContained .gettext_ str_pct [] := by
-  rw [filterContained_iff]; decide
-theorem escapes_t_counterexample : ¬ FilterContained .t_ str_fmt_d [] := by
-  rw [filterContained_iff]; decide
-theorem escapes_ngettext_counterexample : ¬ FilterContained .ngettext_ str_other [str_pct, int_zero] := by
-  rw [filterContained_iff]; decide
 theorem escapes_url_encode_counterexample : ¬ FilterContained .url_encode_ str_surrogate [] := by
   rw [filterContained_iff]; decide
 theorem escapes_currency_counterexample : ¬ FilterContained .currency_ int_huge [] := by
@@ -206,6 +200,9 @@ theorem sites_contained_partial (s : Site) (x : Cls) (strict : Bool) (h : knownS
 example : knownSiteLeak .range_bound list_int = false ∧ runSite .range_bound list_int = [.ok ()] := ⟨by decide, by rfl⟩
 example : runSite .for_limit float_inf = [.error .LiquidTypeError] := by rfl
 example : runSite .tablerow_cols none_ = [.ok ()] := by rfl
+/-- repaired by other properties' fixes and now inside the theorem: `limit: -1`, `d contains <list>`, a stray `%` in a message -/
+example : runSite .for_limit int_neg = [.ok ()] ∧ runSite .contains_in_dict list_int = [.ok ()] := ⟨by rfl, by rfl⟩
+example : runFilter .gettext_ str_pct [] = [.ok ()] ∧ runFilter .t_ str_fmt_d [] = [.ok ()] := ⟨by rfl, by rfl⟩
 
 /-- the full-strength statement for one site cell -/
 def SiteContained (strict : Bool) (s : Site) (x : Cls) : Prop := ∀ o ∈ runSiteMode strict s x, Contained o
@@ -217,12 +214,6 @@ theorem siteContained_iff (strict : Bool) (s : Site) (x : Cls) :
     exact List.all_eq_true.mpr (fun o ho => (contained_iff o).mp (h o ho))
   · exact contained_of_all
 
-/-- `limit: -1` reaches `islice` with a negative stop (`ValueError`), also in lax mode -/
-theorem sites_limit_counterexample : ¬ SiteContained false .for_limit int_neg := by
-  rw [siteContained_iff]; decide
-/-- `d contains x` hashes `x` (`TypeError` for a list) -/
-theorem sites_contains_counterexample : ¬ SiteContained true .contains_in_dict list_int := by
-  rw [siteContained_iff]; decide
 /-- `{{ x }}` with an int of more than 4300 digits (`ValueError`), also in lax mode -/
 theorem sites_output_digits_counterexample : ¬ SiteContained false .output int_giant := by
   rw [siteContained_iff]; decide
